@@ -26,6 +26,18 @@ pub fn to_crossterm(astyle: anstyle::Style) -> crossterm::style::ContentStyle {
     if effects.contains(anstyle::Effects::UNDERLINE) {
         attributes.set(crossterm::style::Attribute::Underlined);
     }
+    if effects.contains(anstyle::Effects::DOUBLE_UNDERLINE) {
+        attributes.set(crossterm::style::Attribute::DoubleUnderlined);
+    }
+    if effects.contains(anstyle::Effects::CURLY_UNDERLINE) {
+        attributes.set(crossterm::style::Attribute::Undercurled);
+    }
+    if effects.contains(anstyle::Effects::DOTTED_UNDERLINE) {
+        attributes.set(crossterm::style::Attribute::Underdotted);
+    }
+    if effects.contains(anstyle::Effects::DASHED_UNDERLINE) {
+        attributes.set(crossterm::style::Attribute::Underdashed);
+    }
     if effects.contains(anstyle::Effects::BLINK) {
         attributes.set(crossterm::style::Attribute::SlowBlink);
     }
